@@ -44,7 +44,7 @@ C08_INVS = ["WellFormed", "HalfOpen", "DirWithinIso", "DirLengthFree", "EarlyExi
 C09_INVS = {
     "iso": ["PermInvariant", "TranslationInvariant", "OrthoInvariant", "ShiftInvariant", "ScaleCovariant",
             "MissingIsRemoved", "RepresentationIrrelevant", "PreprocessAfterMarking", "PerFieldSkipping"],
-    "dir": ["PermInvariant", "TranslationInvariant", "OrthoInvariant", "DirLengthInvariant", "ShiftInvariant",
+    "dir": ["PermInvariant", "TranslationInvariant", "OrthoInvariant", "DirRowsIndependent", "DirLengthInvariant", "ShiftInvariant",
             "ScaleCovariant", "MissingIsRemoved", "RepresentationIrrelevant", "PreprocessAfterMarking"],
     "gc": ["PermInvariant", "OrthoInvariant", "ShiftInvariant", "ScaleCovariant", "MissingIsRemoved", "RepresentationIrrelevant",
            "PreprocessAfterMarking", "UnitFree"],
@@ -109,14 +109,23 @@ DIRS = {2: [(1, 0), (0, 1), (1, 1), (-1, 1), (2, 1), (1, 2), (1, -2), (3, 1), (0
             (0, 0, -2), (1, 2, 2), (0, 1, 1), (-1, 1, 0)]}
 
 
+CRAFTED_DIRS = {2: [((1, 0), (0, 1), (3, 1)), ((1, 0), (0, 1), (2, 1)), ((1, 0), (-1, 1), (1, 3), (0, 1)), ((1, 1), (-1, 1), (1, 0)),
+                    ((1, 0), (0, 1), (1, 2), (2, 1))],
+                3: [((1, 0, 0), (0, 1, 0), (2, 1, 0)), ((1, 0, 0), (0, 0, 1), (0, 1, 0), (1, 0, 1)), ((0, 0, 1), (1, 1, 0), (1, 2, 2)),
+                    ((1, 0, 0), (0, 1, 0), (0, 0, 1), (1, 1, 1))]}
 DSCALES = [(1, 1), (1, 1), (1, 2), (1, 4), (3, 4), (-1, 2), (2, 1), (3, 1), (-1, 1), (-3, 4)]
 
 
 def rand_dirs(rng, dim):
     """A direction set: integer vectors u and a rational length factor num/den for each of them
     (dyadic, so that the float image is exact; shorter than u, longer, reversed)."""
-    k = rng.choice([1, 1, 2, 2, 3])
-    u = tuple(rng.sample(DIRS[dim], k))
+    if rng.random() < 0.3:  # sets where some cones overlap and others do not; listed in a random order
+        u = list(rng.choice(CRAFTED_DIRS[dim]))
+        rng.shuffle(u)
+        u = tuple(u)
+    else:
+        k = rng.choice([1, 1, 2, 2, 3, 3, 4])
+        u = tuple(rng.sample(DIRS[dim], k))
     if rng.random() < 0.3:
         sc = tuple((1, 1) for _ in u)
     else:
@@ -222,9 +231,9 @@ SIZES = {
                            gc=dict(ns=(2, 3, 4, 5), P=16, F=4, E=8, reps=3),
                            axis=dict(G=260, E=3), sub=None, cap=1700),
     ("C09", "quick"): dict(iso=dict(ns=(2, 3, 4, 5, 6), P=6, F=5, E=5),
-                           dir=dict(ns=(2, 3, 4, 5), P=3, F=2, E=2, D=3, B=(0, 2)),
+                           dir=dict(ns=(2, 3, 4), P=2, F=2, E=2, D=4, B=(0, 2)),
                            gc=dict(ns=(2, 3, 4, 5), P=8, F=3, E=5, reps=2),
-                           axis=dict(G=120, E=3), sub=dict(ns=(4, 5, 6, 7), P=4, F=2, E=3), cap=400),
+                           axis=dict(G=120, E=3), sub=dict(ns=(4, 5, 6, 7), P=4, F=2, E=3), cap=130),
     ("C08", "thorough"): dict(iso=dict(ns=(2, 3, 4, 5, 6), P=32, F=16, E=16),
                               dir=dict(ns=(2, 3, 4, 5, 6), P=10, F=3, E=4, D=7, B=(0, 1, 2, 3)),
                               gc=dict(ns=(2, 3, 4, 5, 6), P=40, F=6, E=12, reps=6),
@@ -240,7 +249,7 @@ COMMON = {"Shifts": frozenset({-3, 5}), "Scales": frozenset({-1, 2, 3}),
 # integer valued trend functions t(p) = c0 + c1 p1 + c2 p2 + c3 p3 (small for lat-lon: values stay far from the markers)
 TRENDS = {"euclid": [(1, 2, -1, 1), (-3, -2, 1, 2)], "gc": [(1, 1, -1, 0), (2, -1, 1, 0)]}
 EMPTY = {"Groups": frozenset(), "EdgeSets": frozenset(), "DirSets": frozenset(), "Tols": frozenset(),
-         "Bands": frozenset({0}), "Grids": frozenset(), "SubSizes": frozenset()}
+         "Bands": frozenset({0}), "Grids": frozenset(), "SubSizes": frozenset(), "SeedVals": frozenset()}
 
 
 def _grp(P, F):
@@ -313,8 +322,8 @@ def plan_jobs(pid, tier, rng):
                                         for _ in range(rng.choice([1, 1, 2]))), p["F"])
                 E = _uniq(lambda: rand_edges(rng), p["E"])
                 ks = frozenset(k for k in {2, n // 2 + 1, n - 1} if 2 <= k < n)
-                add("sub", "d%dn%d" % (dim, n), {"EdgeSets": frozenset(E), "SubSizes": ks},
-                    len(F) * len(E) * len(ks), P, lambda Pc, F=F: _grp(Pc, F))
+                add("sub", "d%dn%d" % (dim, n), {"EdgeSets": frozenset(E), "SubSizes": ks, "SeedVals": frozenset({0, 7})},
+                    2 * len(F) * len(E) * len(ks), P, lambda Pc, F=F: _grp(Pc, F))
     if os.environ.get("VERIF_ONLY"):
         jobs = [j for j in jobs if j["mode"] in os.environ["VERIF_ONLY"].split(",")]
     return jobs
@@ -590,10 +599,12 @@ def c08_forms(ctx, fa, pa):
                 base, kw, label = fa + tv, {"trend": tf}, kind + "+trend"
             else:
                 base, kw, label = fa + tv + 4.0, {"mean": tf, "trend": 4.0}, kind + "+mean+trend"
+        if kind == "no-data" and not kw and rng.random() < 0.5:
+            kind = label = "no-data-0"
         if kind == "nan":
             f_, k2 = field_form(ctx, base), {}
         else:
-            f_, k2 = render(base, kind, as_list=rng.random() < 0.5)
+            f_, k2 = render(base, kind, as_list=rng.random() < 0.5, spell=rng.choice(MASK_SPELLINGS))
         forms.append((label, f_, dict(k2, **kw)))
     return forms
 
@@ -892,7 +903,7 @@ def _check_rel_once(ctx, st, mode, rel, exp, call, est, kw_desc, tol=1e-12, scal
 
 
 GARB, NODATA = 555.0, -999.0
-REPR_KINDS = ("entry-mask", "empty-point-mask", "point-mask", "no-data", "mixed")
+REPR_KINDS = ("entry-mask", "empty-point-mask", "point-mask", "no-data", "mixed")  # + "no-data-0" without pre-processing
 
 
 def trend_fn(T):
@@ -903,7 +914,26 @@ def trend_fn(T):
     return trend
 
 
-def render(fa, kind, as_list=False, nodata=NODATA):
+MASK_SPELLINGS = ("bool", "int", "float", "list-int", "list-bool")
+
+
+def spell_mask(m, sp):
+    """Float image of Spell(., sp): the same truth values as bool / int 0-1 / float 0.0-1.0 array or list."""
+    m = np.asarray(m, dtype=bool)
+    if sp == "bool":
+        return m.copy()
+    if sp == "int":
+        return m.astype(np.int64)
+    if sp == "float":
+        return m.astype(np.float64)
+    if sp == "list-int":
+        return m.astype(int).tolist()
+    if sp == "list-bool":
+        return m.tolist()
+    raise AssertionError(sp)
+
+
+def render(fa, kind, as_list=False, nodata=NODATA, spell="bool"):
     """Float image of Render(flds, kind) of the spec: (field object, keyword arguments).
     Finite, distinctive raw data is stored under every mask."""
     nanm = np.isnan(fa)
@@ -923,9 +953,9 @@ def render(fa, kind, as_list=False, nodata=NODATA):
     if kind == "entry-mask":
         return ma(garb, nanm), {}
     if kind == "empty-point-mask":
-        return ma(garb, nanm), {"mask": np.zeros(n, dtype=bool)}
+        return ma(garb, nanm), {"mask": spell_mask(np.zeros(n, dtype=bool), spell)}
     if kind == "point-mask":
-        return ma(garb, nanm & ~allna[None, :]), {"mask": allna.copy()}
+        return ma(garb, nanm & ~allna[None, :]), {"mask": spell_mask(allna, spell)}
     if kind == "no-data":
         v = np.where(nanm, nodata, fa)
         return (v if nf > 1 else v[0]), {"no_data": nodata}
@@ -934,7 +964,10 @@ def render(fa, kind, as_list=False, nodata=NODATA):
         v[0, nanm[0]] = GARB
         m = np.zeros_like(nanm)
         m[0] = nanm[0]
-        return ma(v, m), {"mask": allna.copy(), "no_data": nodata}
+        return ma(v, m), {"mask": spell_mask(allna, spell), "no_data": nodata}
+    if kind == "no-data-0":  # the (falsy) no-data value 0; the data are shifted away from it
+        v = np.where(nanm, 0.0, fa + 7.0)
+        return (v if nf > 1 else v[0]), {"no_data": 0.0 if spell in ("float", "bool") else 0}
     raise AssertionError(kind)
 
 
@@ -945,21 +978,21 @@ def missing_forms(ctx, fa, pa):
     nanm = np.isnan(fa)
     allmiss = nanm.all(axis=0)
     sent = 7.0
-    for kind in REPR_KINDS:
-        f_, kw = render(fa, kind)
+    for kind in REPR_KINDS + ("no-data-0",):
+        f_, kw = render(fa, kind, spell=ctx.rng.choice(MASK_SPELLINGS))
         out.append((kind, pa, f_, kw))
-        if fa.shape[0] > 1 and kind != "no-data":
-            f_, kw = render(fa, kind, as_list=True)
+        if fa.shape[0] > 1 and not kind.startswith("no-data"):
+            f_, kw = render(fa, kind, as_list=True, spell=ctx.rng.choice(MASK_SPELLINGS))
             out.append((kind + ":list-of-masked-arrays", pa, f_, kw))
     if allmiss.any() and not allmiss.all():
         f3 = fa.copy()
         f3[:, allmiss] = 3.0  # points without data carry a value but are deselected by mask=
-        out.append(("mask-param", pa, f3 if fa.shape[0] > 1 else f3[0], {"mask": allmiss.copy()}))
+        out.append(("mask-param", pa, f3 if fa.shape[0] > 1 else f3[0], {"mask": spell_mask(allmiss, ctx.rng.choice(MASK_SPELLINGS))}))
         out.append(("removed", pa[:, ~allmiss], fa[:, ~allmiss] if fa.shape[0] > 1 else fa[0, ~allmiss], {}))
         f4 = fa.copy()
         f4[nanm] = sent
         f4[:, allmiss] = 1.0
-        out.append(("mask-param+no_data", pa, f4 if fa.shape[0] > 1 else f4[0], {"mask": allmiss.copy(), "no_data": sent}))
+        out.append(("mask-param+no_data", pa, f4 if fa.shape[0] > 1 else f4[0], {"mask": spell_mask(allmiss, ctx.rng.choice(MASK_SPELLINGS)), "no_data": sent}))
     return out
 
 
@@ -998,6 +1031,10 @@ def replay_points_c09(ctx, gs, K, st, mode):
     # the input itself (both estimators)
     run("identity", pa, fld0, e="m")
     run("identity", pa, fld0, e="c")
+    # optional arguments given explicitly with a valid but falsy value (0, 0.0, False, numpy zeros)
+    run("explicit-falsy-arguments", pa, fld0,
+        {"mask": rng.choice([False, np.False_, np.ma.nomask]), "mean": rng.choice([0, 0.0, np.float64(0.0)]),
+         "trend": rng.choice([0, 0.0]), "sampling_size": n + rng.choice([0, 2]), "sampling_seed": rng.choice([0, np.int64(0)])})
     # permutation of the points
     pi = list(range(n))
     rng.shuffle(pi)
@@ -1055,14 +1092,14 @@ def replay_points_c09(ctx, gs, K, st, mode):
         tv = tf(*pa)
         for kind in ("nan",) + REPR_KINDS:
             lst = rng.random() < 0.5
-            f_, kw = render(fa + tv, kind, as_list=lst)
+            f_, kw = render(fa + tv, kind, as_list=lst, spell=rng.choice(MASK_SPELLINGS))
             run("preprocess+missing:trend:" + kind, pa, f_, dict(kw, trend=tf))
-            f_, kw = render(fa + tv + 4.0, kind, as_list=lst)
+            f_, kw = render(fa + tv + 4.0, kind, as_list=lst, spell=rng.choice(MASK_SPELLINGS))
             run("preprocess+missing:mean+trend:" + kind, pa, f_, dict(kw, mean=tf, trend=4.0))
-            f_, kw = render(fa - 6.0, kind, as_list=lst)
+            f_, kw = render(fa - 6.0, kind, as_list=lst, spell=rng.choice(MASK_SPELLINGS))
             run("preprocess+missing:mean-constant:" + kind, pa, f_, dict(kw, mean=-6.0))
             # a positive marker, so that the normaliser maps it to a finite value
-            f_, kw = render(np.exp(fa + 2.0), kind, as_list=lst, nodata=999.0)
+            f_, kw = render(np.exp(fa + 2.0), kind, as_list=lst, nodata=999.0, spell=rng.choice(MASK_SPELLINGS))
             run("preprocess+missing:lognormal:" + kind, pa, f_, dict(kw, normalizer=gs.normalizer.LogNormal, mean=2.0), tol=1e-9)
     # per-field skipping: the stack is the pair-count weighted mean of its fields
     if nf > 1 and mode != "dir":
@@ -1099,6 +1136,22 @@ def replay_points_c09(ctx, gs, K, st, mode):
         run("direction-length:unequal", pa, fld0, {"direction": (unit * fac[:, None]).tolist()})
         run("direction-length:bare-integer-vectors", pa, fld0, {"direction": [list(map(float, d)) for d in inp["dirs"]]})
         run("direction-sign", pa, fld0, {"direction": (-dirs)})
+        # the rows of a joint estimate are the estimates of the single directions: any order of the direction
+        # list only permutes the rows, and every direction alone gives its row (spec: DirRowsIndependent).
+        # (On inputs of the known early-exit defect the row of a later direction is already known to deviate.)
+        nd = len(dirs)
+        full, early = exp
+        if nd >= 2 and not (out["coinc"] and out["sep"] != "no"):
+            import itertools
+            perms = [p_ for p_ in itertools.permutations(range(nd)) if p_ != tuple(range(nd))]
+            if len(perms) > 3:
+                perms = rng.sample(perms, 3)
+            for p_ in perms:
+                pf = [full[d] for d in p_]
+                run("direction-order", pa, fld0, {"direction": dirs[list(p_)].tolist()}, expd=(pf, pf))
+            for d in range(nd):
+                run("direction-alone", pa, fld0, {"direction": [dirs[d].tolist()] if rng.random() < 0.5 else dirs[d].tolist()},
+                    expd=([full[d]], [full[d]]))
         table = ANGLES2 if dim == 2 else ANGLES3
         if all(tuple(d) in table for d in inp["dirs"]):
             ang = [table[tuple(d)] for d in inp["dirs"]]
@@ -1312,7 +1365,9 @@ def replay_axis_c09(ctx, gs, K, st):
             "vario_estimate(points=%s, field=%s, edges=%s)" % (pts.tolist(), _show(fldnan.reshape(-1)), ed.tolist()))
     if missing.any() and not missing.all():
         filled = np.where(missing, 4.0, vals)
-        iso_rel("structured-mesh+mask", lambda: call_api(gs, axes, filled.copy(), ed, est, mesh_type="structured", mask=missing.copy()),
+        msp = rng.choice(("bool", "int", "float"))
+        mobj = spell_mask(missing, msp)
+        iso_rel("structured-mesh+mask", lambda: call_api(gs, axes, filled.copy(), ed, est, mesh_type="structured", mask=mobj),
                 "vario_estimate(axes=%s, field=%s, edges=%s, mesh_type='structured', mask=%s)" % ([a.tolist() for a in axes], _show(filled), ed.tolist(), missing.tolist()))
         iso_rel("structured-mesh+masked-array", lambda: call_api(gs, axes, np.ma.array(filled.copy(), mask=missing.copy()), ed, est, mesh_type="structured"),
                 "vario_estimate(axes, ma.array(%s, mask=%s), mesh_type='structured')" % (_show(filled), missing.tolist()))
@@ -1355,27 +1410,35 @@ def replay_sub_c09(ctx, gs, K, st):
     subs = [(sorted(dict(r)["s"]), [norm_bins(dict(r)["r"])]) for r in out["subs"]]
     full = [norm_bins(out["full"])]
     identified = 0
-    for seed in (rng.randint(0, 10 ** 6), rng.randint(0, 10 ** 6)):
-        est = rng.choice(["m", "c"])
+    # the seed VALUE comes from the spec input (0 is a valid seed); spellings: Python int / numpy integer
+    sv = inp["seed"]
+    first = None
+    for seed in (sv, np.int64(sv)):
+        est = "m"
         ctx.rel("sub-sample")
         try:
             _c, v, c = call_api(gs, pa, fld0, ed, est, sampling_size=k, sampling_seed=seed)
             _c, v2, c2 = call_api(gs, pa.copy(), np.array(fld0, copy=True), ed, est, sampling_size=k, sampling_seed=seed)
         except Exception as e:  # noqa: BLE001
             _fail(ctx, "rel:sub-sample:exception", "vario_estimate(sampling_size=%d) raised %r" % (k, e), "sub", st,
-                  "vario_estimate(..., sampling_size=%d, sampling_seed=%d)" % (k, seed), {"exception": repr(e)})
+                  "vario_estimate(..., sampling_size=%d, sampling_seed=%r)" % (k, seed), {"exception": repr(e)})
             continue
         ctx.calls += 2
         hits = [s for s, e in subs if compare(e, v, c, est) is None]
-        desc = "vario_estimate(pos, field, edges, sampling_size=%d, sampling_seed=%d, estimator=%r)" % (k, seed, est_name(est))
+        desc = "vario_estimate(pos, field, edges, sampling_size=%d, sampling_seed=%r, estimator=%r)" % (k, seed, est_name(est))
         if not hits:
             _fail(ctx, "rel:sub-sample:no-subset", "the sampled estimate equals the estimate on no subset of size %d" % k,
                   "sub", st, desc, _obs(v, c))
         elif len(hits) == 1:  # (several subsets may share count and value of one estimator: then not identifiable)
             identified += 1
         if not (np.array_equal(v, v2) and np.array_equal(c, c2)):
-            _fail(ctx, "rel:sub-sample:not-reproducible", "two calls with sampling_seed=%d differ" % seed, "sub", st, desc,
+            _fail(ctx, "rel:sub-sample:not-reproducible", "two calls with sampling_seed=%r differ" % (seed,), "sub", st, desc,
                   {"first": _obs(v, c), "second": _obs(v2, c2)})
+        if first is None:
+            first = (v, c)
+        elif not (np.array_equal(v, first[0]) and np.array_equal(c, first[1])):
+            _fail(ctx, "rel:sub-sample:seed-spelling", "sampling_seed=%r (numpy integer) gives another sample than the Python int of the same value"
+                  % (seed,), "sub", st, desc, {"int": _obs(*first), "numpy": _obs(v, c)})
     est = rng.choice(["m", "c"])
     for big in (n, n + 3):
         _check_rel(ctx, st, "sub", "sampling_size>=n", full,
